@@ -96,6 +96,25 @@ Token *stub_preprocess2(Token *tok) {
 
 // ================================================================ (2) subst vs C11 6.10.3.1-3
 enum { B_X, B_Y, B_HASH, B_PASTE, B_A, B_COMMA, B_N };
+static int64_t cat(int64_t a, int64_t b);
+// paste()/stringize() are format()+tokenize() glue; their callers' logic (which operands are pasted,
+// placemarkers) is the subject here, so they are cut to spelling-level equivalents:
+//   paste(l, r)      -> one token spelled l.r      stringize(#, arg) -> "" or "<arg>" as one TK_STR
+Token *stub_paste(Token *lhs, Token *rhs) {
+  Token *t = calloc(1, sizeof(Token)), *e = calloc(1, sizeof(Token));
+  *t = *lhs;
+  t->val = cat(lhs->val, rhs->val); t->len = lhs->len + rhs->len; t->next = e;
+  e->kind = TK_EOF; e->file = lhs->file;
+  return t;
+}
+Token *stub_stringize(Token *hash, Token *arg) {
+  Token *t = calloc(1, sizeof(Token)), *e = calloc(1, sizeof(Token));
+  t->kind = TK_STR; t->file = hash->file; t->next = e;
+  t->val = arg->kind == TK_EOF ? verif_spell("\"\"") : arg->val == verif_spell("p") ? verif_spell("\"p\"") : verif_spell("\"q\"");
+  t->loc = "\"?\""; t->len = t->val & 15;
+  e->kind = TK_EOF; e->file = hash->file;
+  return t;
+}
 // packed-spelling helpers (see verif_spell): value = chars << 4 | len
 static int64_t cat(int64_t a, int64_t b) {
   int na = a & 15, nb = b & 15;
